@@ -4,12 +4,17 @@ import RsMatterVerif.Model.TlvSchema
 namespace Tlv
 
 
-theorem tryCtx_leaf (tg : Nat) (p : Prim) (X : Bytes) (h : tg < 256) :
-    tryCtx (encode (.leaf (.ctx tg) p) ++ X) = .ok (some tg) := by
-  rw [encode_leaf_append]
+theorem tryCtx_header (tg : Nat) (vt : ValueType) (X : Bytes) (h : tg < 256) :
+    tryCtx (header (.ctx tg) vt ++ X) = .ok (some tg) := by
   simp only [tryCtx, control_header, Res.ok_bind, Tag.type, if_true, tagSlice]
   simp only [header, Tag.bytes, List.cons_append, tagStart_cons, Res.ok_bind, leBytes, TagType.size]
   simp [getTo, okOr, UInt8.toNat_ofNat']; omega
+
+theorem tryCtx_encode (v : Value) (tg : Nat) (X : Bytes) (ht : v.tag = .ctx tg) (h : tg < 256) :
+    tryCtx (encode v ++ X) = .ok (some tg) := by
+  cases v with
+  | leaf t p => simp only [Value.tag] at ht; subst ht; rw [encode_leaf_append]; exact tryCtx_header tg _ _ h
+  | cont t k cs => simp only [Value.tag] at ht; subst ht; rw [encode_cont_append]; exact tryCtx_header tg _ _ h
 
 theorem u8_uint (t : Tag) (n : Nat) (more : Bytes) (h : (Prim.uint .w1 n).wf) :
     u8 (encode (.leaf t (.uint .w1 n)) ++ more) = .ok n := by
@@ -56,12 +61,17 @@ theorem mkUint_width (n : Nat) :
       · exact ⟨.w4, by decide, by simp [h1, h2, h]⟩
 
 
-/-- a context-tagged primitive (what a derived field writes) -/
-def CtxLeaf (v : Value) : Prop := ∃ tg p, v = .leaf (.ctx tg) p ∧ tg < 256 ∧ p.wf
 
-def ctxTagOf : Value → Option Nat
-  | .leaf (.ctx n) _ => some n
+/-- a context-tagged value (what a derived field writes: primitive or container) -/
+def CtxVal (v : Value) : Prop := ∃ tg, v.tag = .ctx tg ∧ tg < 256 ∧ v.wf
+
+def ctxTagOf (v : Value) : Option Nat :=
+  match v.tag with
+  | .ctx n => some n
   | _ => none
+
+theorem ctxTagOf_eq {v : Value} {tg : Nat} (h : v.tag = .ctx tg) : ctxTagOf v = some tg := by
+  simp [ctxTagOf, h]
 
 /-- the slice `find_ctx(tag)` returns on the written fields `vals` (followed by the end marker) -/
 def suffixAt : List Value → Nat → Bytes → Bytes
@@ -70,39 +80,67 @@ def suffixAt : List Value → Nat → Bytes → Bytes
     if ctxTagOf v = some tag then encode v ++ (encodes (Values.ofList rest) ++ endByte :: more)
     else suffixAt rest tag more
 
-theorem CtxLeaf.wf {v : Value} (h : CtxLeaf v) : v.wf := by
-  obtain ⟨tg, p, rfl, h1, h2⟩ := h
-  exact ⟨by simp [Tag.wf]; omega, h2⟩
-theorem CtxLeaf.depth {v : Value} (h : CtxLeaf v) : v.depth = 1 := by
-  obtain ⟨tg, p, rfl, _, _⟩ := h; rfl
-
-theorem ofList_wf : ∀ vals : List Value, (∀ v ∈ vals, CtxLeaf v) → (Values.ofList vals).wf
+theorem ofList_wf : ∀ vals : List Value, (∀ v ∈ vals, v.wf) → (Values.ofList vals).wf
   | [], _ => trivial
-  | v :: rest, h => ⟨(h v (by simp)).wf, ofList_wf rest fun v' hv' => h v' (by simp [hv'])⟩
-theorem ofList_depth : ∀ vals : List Value, (∀ v ∈ vals, CtxLeaf v) → (Values.ofList vals).depth ≤ 1
-  | [], _ => by simp [Values.ofList, Values.depth]
-  | v :: rest, h => by
-    have := (h v (by simp)).depth
-    have := ofList_depth rest fun v' hv' => h v' (by simp [hv'])
-    simp [Values.ofList, Values.depth]; omega
+  | v :: rest, h => ⟨h v (by simp), ofList_wf rest fun v' hv' => h v' (by simp [hv'])⟩
 
-theorem findCtxGo_suffixes (tag : Nat) (more : Bytes) : ∀ vals : List Value, (∀ v ∈ vals, CtxLeaf v) →
+theorem ofList_depth_le : ∀ (vals : List Value) (v : Value), v ∈ vals → v.depth ≤ (Values.ofList vals).depth
+  | [], _, h => by simp at h
+  | w :: rest, v, h => by
+    simp only [Values.ofList, Values.depth]
+    rcases List.mem_cons.mp h with rfl | h
+    · omega
+    · have := ofList_depth_le rest v h; omega
+
+theorem ofList_depth_append_right (a b : List Value) : (Values.ofList b).depth ≤ (Values.ofList (a ++ b)).depth := by
+  induction a with
+  | nil => simp
+  | cons v rest ih => simp only [List.cons_append, Values.ofList, Values.depth]; omega
+
+theorem ofList_depth_tail (v : Value) (rest : List Value) :
+    (Values.ofList rest).depth ≤ (Values.ofList (v :: rest)).depth := by
+  simp only [Values.ofList, Values.depth]; omega
+
+theorem Values.depth_lt_of_len (vs : Values) (h : (encodes vs).length + 1 < USIZE) : vs.depth + 1 < USIZE := by
+  have h1 := Values.depth_le_ntoks vs
+  have h2 := Values.ntoks_le vs
+  omega
+
+theorem ofList_len_mem : ∀ (vals : List Value) (v : Value), v ∈ vals →
+    (encode v).length ≤ (encodes (Values.ofList vals)).length
+  | [], _, h => by simp at h
+  | w :: rest, v, h => by
+    simp only [Values.ofList, encodes, List.length_append]
+    rcases List.mem_cons.mp h with rfl | h
+    · omega
+    · have := ofList_len_mem rest v h; omega
+
+theorem ofList_len_tail (v : Value) (rest : List Value) :
+    (encodes (Values.ofList rest)).length ≤ (encodes (Values.ofList (v :: rest))).length := by
+  simp only [Values.ofList, encodes, List.length_append]; omega
+
+theorem encode_cont_len (t : Tag) (k : Kind) (cs : Values) :
+    (encodes cs).length + 2 ≤ (encode (.cont t k cs)).length := by
+  simp only [encode, List.length_append, header_length, List.length_cons, List.length_nil]; omega
+
+theorem findCtxGo_suffixes (tag : Nat) (more : Bytes) : ∀ vals : List Value, (∀ v ∈ vals, CtxVal v) →
     findCtxGo tag ((childSuffixes (Values.ofList vals) more).map .ok) = .ok (suffixAt vals tag more)
   | [], _ => rfl
   | v :: rest, h => by
-    obtain ⟨tg, p, rfl, h1, h2⟩ := h v (by simp)
-    simp only [Values.ofList, childSuffixes, List.map_cons, findCtxGo, Res.ok_bind, tryCtx_leaf tg p _ h1,
-      suffixAt, ctxTagOf, Option.some.injEq]
+    obtain ⟨tg, h0, h1, _⟩ := h v (by simp)
+    simp only [Values.ofList, childSuffixes, List.map_cons, findCtxGo, Res.ok_bind, tryCtx_encode v tg _ h0 h1,
+      suffixAt, ctxTagOf_eq h0, Option.some.injEq]
     by_cases e : tg = tag
     · simp [e]
     · simp only [e, if_false]
       exact findCtxGo_suffixes tag more rest fun v' hv' => h v' (by simp [hv'])
 
 /-- `find_ctx` on the written fields -/
-theorem findCtx_fields (vals : List Value) (tag : Nat) (more : Bytes) (h : ∀ v ∈ vals, CtxLeaf v) :
+theorem findCtx_fields (vals : List Value) (tag : Nat) (more : Bytes) (h : ∀ v ∈ vals, CtxVal v)
+    (hd : (Values.ofList vals).depth + 1 < USIZE) :
     findCtx (encodes (Values.ofList vals) ++ endByte :: more) tag = .ok (suffixAt vals tag more) := by
   unfold findCtx
-  rw [elements_encodes _ more (ofList_wf vals h) (by have := ofList_depth vals h; simp [USIZE]; omega)]
+  rw [elements_encodes _ more (ofList_wf vals fun v hv => (h v hv).choose_spec.2.2) hd]
   exact findCtxGo_suffixes tag more vals h
 
 theorem suffixAt_skip (pre L : List Value) (tag : Nat) (more : Bytes)
@@ -118,305 +156,861 @@ theorem suffixAt_none (L : List Value) (tag : Nat) (more : Bytes)
   have := suffixAt_skip L [] tag more h
   simpa [suffixAt] using this
 
+theorem suffixAt_head (v : Value) (rest : List Value) (tag : Nat) (more : Bytes) (h : v.tag = .ctx tag) :
+    suffixAt (v :: rest) tag more = encode v ++ (encodes (Values.ofList rest) ++ endByte :: more) := by
+  simp [suffixAt, ctxTagOf_eq h]
 
 open TlvSchema
 
-/-- the part of the derived field decoder after `find_ctx` -/
-def decodeAt (f : Field) (e : Bytes) : Res Slot :=
-  if f.opt && e.isEmpty then pure .absent
-  else if f.nullable then do
-    let c ← control e
-    if c.vt = .null then pure .null else do
-      let s ← numOf f.ty e
-      match s with
-      | .num n => if n = f.ty.max then .err .invalid else pure s
-      | _ => pure s
-  else numOf f.ty e
+/-! ### what a written field reads back as -/
 
-theorem decodeField_eq (seq : Bytes) (f : Field) : decodeField seq f = (findCtx seq f.tag >>= decodeAt f) := rfl
+theorem wmax_lt (w : Width) : wmax w < 2 ^ 64 := by cases w <;> decide
 
-theorem decodeAt_absent (f : Field) (h : f.opt = true) : decodeAt f [] = .ok .absent := by
-  simp [decodeAt, h]
+theorem uintPrim_wf (w : Width) (n : Nat) (h : n ≤ wmax w) : (uintPrim w n).wf := by
+  unfold uintPrim
+  by_cases h1 : w = .w1
+  · subst h1; simp only [if_true, Prim.wf, Width.bytes]; simp only [wmax, Width.bytes] at h; omega
+  · simp only [h1, if_false]; exact mkUint_wf n (by have := wmax_lt w; omega)
 
-/-- the primitive a numeric field writes reads back through the field type's accessor -/
-theorem numOf_written (t : Tag) (ty : FTy) (n : Nat) (X : Bytes) (hty : ty ≠ .bool) (hn : n ≤ ty.max) :
-    numOf ty (encode (.leaf t (if ty == .u8 then .uint .w1 n else Prim.mkUint n)) ++ X) = .ok (.num n) := by
-  cases ty with
-  | bool => exact absurd rfl hty
-  | u8 =>
-    simp only [FTy.max] at hn
-    simp only [numOf, beq_self_eq_true, if_true]
-    rw [u8_uint t n X (by simp [Prim.wf, Width.bytes]; omega)]; rfl
-  | u16 =>
-    simp only [FTy.max] at hn
-    have hw := (mkUint_width n).2.1 hn
+theorem uintPrim_eq (w : Width) (n : Nat) : ∃ w', uintPrim w n = .uint w' n := by
+  unfold uintPrim
+  by_cases h1 : w = .w1
+  · exact ⟨.w1, by simp [h1]⟩
+  · obtain ⟨w', hw⟩ := mkUint_eq n; exact ⟨w', by simp [h1, hw]⟩
+
+/-- the integer a field writes (`tw.u8` / shortest width) reads back through the field type's accessor -/
+theorem readUint_written (t : Tag) (w : Width) (n : Nat) (X : Bytes) (hn : n ≤ wmax w) :
+    readUint w (encode (.leaf t (uintPrim w n)) ++ X) = .ok n := by
+  cases w with
+  | w1 =>
+    simp only [wmax, Width.bytes] at hn
+    simp only [readUint, uintPrim, if_true]
+    exact u8_uint t n X (by simp [Prim.wf, Width.bytes]; omega)
+  | w2 =>
+    simp only [wmax, Width.bytes] at hn
+    have hw := (mkUint_width n).2.1 (by omega)
     have hwf := mkUint_wf n (by omega)
-    have : (FTy.u16 == FTy.u8) = false := by decide
-    simp only [numOf, this, Bool.false_eq_true, if_false]
+    simp only [readUint, uintPrim, reduceCtorEq, if_false]
     rcases hw with hw | hw <;> rw [hw] at hwf ⊢
-    · rw [u16_uint t _ n X (Or.inl rfl) hwf]; rfl
-    · rw [u16_uint t _ n X (Or.inr rfl) hwf]; rfl
-  | u32 =>
-    simp only [FTy.max] at hn
-    obtain ⟨w, hw8, hw⟩ := (mkUint_width n).2.2 hn
+    · exact u16_uint t _ n X (Or.inl rfl) hwf
+    · exact u16_uint t _ n X (Or.inr rfl) hwf
+  | w4 =>
+    simp only [wmax, Width.bytes] at hn
+    obtain ⟨w', hw8, hw⟩ := (mkUint_width n).2.2 (by omega)
     have hwf := mkUint_wf n (by omega)
-    have : (FTy.u32 == FTy.u8) = false := by decide
-    simp only [numOf, this, Bool.false_eq_true, if_false]
+    simp only [readUint, uintPrim, reduceCtorEq, if_false]
     rw [hw] at hwf ⊢
-    rw [u32_uint t w n X hw8 hwf]; rfl
-  | u64 =>
-    simp only [FTy.max] at hn
-    obtain ⟨w, hw⟩ := mkUint_eq n
+    exact u32_uint t w' n X hw8 hwf
+  | w8 =>
+    simp only [wmax, Width.bytes] at hn
+    obtain ⟨w', hw⟩ := mkUint_eq n
     have hwf := mkUint_wf n (by omega)
-    have : (FTy.u64 == FTy.u8) = false := by decide
-    simp only [numOf, this, Bool.false_eq_true, if_false]
+    simp only [readUint, uintPrim, reduceCtorEq, if_false]
     rw [hw] at hwf ⊢
-    rw [u64_uint t w n X hwf]; rfl
+    exact u64_uint t w' n X hwf
 
-theorem written_prim_vt (ty : FTy) (n : Nat) :
-    ∃ w, (if ty == .u8 then Prim.uint .w1 n else Prim.mkUint n) = .uint w n := by
-  by_cases h : (ty == .u8) = true
-  · exact ⟨.w1, by simp [h]⟩
-  · obtain ⟨w, hw⟩ := mkUint_eq n
-    exact ⟨w, by simp [h, hw]⟩
+theorem mkStr_wf (b : Bytes) (h : b.length < USIZE) : (Prim.mkStr b).wf := lenWidth_fits b.length h
+theorem mkUtf8_wf (b : Bytes) (h : b.length < USIZE) (hu : validUtf8 b = true) : (Prim.mkUtf8 b).wf :=
+  ⟨lenWidth_fits b.length h, hu⟩
 
-/-- a present field decodes to the slot it was written from -/
-theorem decodeAt_written (f : Field) (s : Slot) (p : Prim) (X : Bytes)
-    (h : encodeField f s = some [.leaf (.ctx f.tag) p]) :
-    decodeAt f (encode (.leaf (.ctx f.tag) p) ++ X) = .ok s := by
-  have hne : (encode (.leaf (.ctx f.tag) p) ++ X).isEmpty = false := encode_ne_nil _ _
-  cases s with
-  | absent => simp only [encodeField] at h; split at h <;> simp at h
-  | null =>
-    simp only [encodeField] at h
-    split at h
-    · rename_i hnl
-      simp only [Option.some.injEq, List.cons.injEq, Value.leaf.injEq, and_true, true_and] at h
-      subst h
-      simp only [decodeAt, hne, Bool.and_false, Bool.false_eq_true, if_false, hnl, if_true, control_leafE, Res.ok_bind,
-        Prim.vt, Res.pure_eq]
-    · simp at h
-  | num n =>
-    simp only [encodeField] at h
-    split at h
-    · rename_i hc
-      simp only [Bool.and_eq_true, bne_iff_ne, ne_eq, decide_eq_true_eq, Bool.or_eq_true, Bool.not_eq_true'] at hc
-      obtain ⟨⟨hty, hmax⟩, hnul⟩ := hc
-      simp only [Option.some.injEq, List.cons.injEq, Value.leaf.injEq, and_true, true_and] at h
-      subst h
-      have hnum := numOf_written (.ctx f.tag) f.ty n X hty hmax
-      simp only [decodeAt, hne, Bool.and_false, Bool.false_eq_true, if_false]
-      by_cases hnl : f.nullable = true
-      · obtain ⟨w, hw⟩ := written_prim_vt f.ty n
-        have hneq : n ≠ f.ty.max := by
-          rcases hnul with h1 | h1
-          · simp [hnl] at h1
-          · exact h1
-        simp only [hnl, if_true, control_leafE, Res.ok_bind, hnum]
-        rw [hw]
-        simp only [Prim.vt, reduceCtorEq, if_false, hneq, Res.pure_eq]
-      · simp only [hnl, Bool.false_eq_true, if_false, hnum]
-    · simp at h
-  | bool b =>
-    simp only [encodeField] at h
-    split at h
-    · rename_i hty
-      have hty' : f.ty = .bool := by simpa using hty
-      simp only [Option.some.injEq, List.cons.injEq, Value.leaf.injEq, and_true, true_and] at h
-      subst h
-      have hb : boolOf (encode (.leaf (.ctx f.tag) (.bool b)) ++ X) = .ok b := (bool_null_roundtrip _ b X).1
-      simp only [decodeAt, hne, Bool.and_false, Bool.false_eq_true, if_false, hty', numOf, hb, Res.ok_bind, Res.pure_eq]
-      by_cases hnl : f.nullable = true
-      · simp only [hnl, if_true, control_leafE, Res.ok_bind]
-        cases b <;> simp [Prim.vt]
-      · simp only [hnl, Bool.false_eq_true, if_false]
-    · simp at h
+theorem enter_cont (k : Kind) (t : Tag) (cs : Values) (X : Bytes) :
+    enter k (encode (.cont t k cs) ++ X) = .ok (encodes cs ++ endByte :: X) := by
+  rw [encode_cont_append]
+  cases k <;>
+    simp only [enter, structOf, arrayOf, listOf, control_header, Res.ok_bind, if_true, nextEnter_open]
 
+/-! ### well-formed schemas -/
 
+def _root_.TlvSchema.Fields.tags : Fields → List Nat
+  | .nil => []
+  | .cons tag _ _ _ rest => tag :: rest.tags
+  | .consSkip tag _ _ rest => tag :: rest.tags
 
-theorem encodeField_shape (f : Field) (s : Slot) (v : List Value) (ht : f.tag < 256) (h : encodeField f s = some v) :
-    (v = [] ∧ s = .absent ∧ f.opt = true) ∨ (∃ p, v = [.leaf (.ctx f.tag) p] ∧ CtxLeaf (.leaf (.ctx f.tag) p)) := by
-  cases s with
-  | absent =>
-    simp only [encodeField] at h
-    split at h
-    · rename_i ho; simp at h; exact Or.inl ⟨h, rfl, ho⟩
-    · simp at h
-  | null =>
-    simp only [encodeField] at h
-    split at h
-    · simp at h; exact Or.inr ⟨.null, h.symm, _, _, rfl, ht, trivial⟩
-    · simp at h
-  | num n =>
-    simp only [encodeField] at h
-    split at h
-    · rename_i hc
-      simp only [Bool.and_eq_true, bne_iff_ne, ne_eq, decide_eq_true_eq, Bool.or_eq_true, Bool.not_eq_true'] at hc
-      obtain ⟨⟨hty, hmax⟩, _⟩ := hc
-      simp at h
-      refine Or.inr ⟨_, h.symm, _, _, rfl, ht, ?_⟩
-      by_cases h8 : f.ty = .u8
-      · have hn : n ≤ 255 := by rw [h8] at hmax; simpa [FTy.max] using hmax
-        rw [if_pos h8]
-        simp only [Prim.wf, Width.bytes]; omega
-      · rw [if_neg h8]
-        apply mkUint_wf
-        cases hft : f.ty <;> simp only [hft, FTy.max] at hmax <;> omega
-    · simp at h
-  | bool b =>
-    simp only [encodeField] at h
-    split at h
-    · simp at h; exact Or.inr ⟨.bool b, h.symm, _, _, rfl, ht, trivial⟩
-    · simp at h
+def _root_.TlvSchema.Alts.tags : Alts → List Nat
+  | .nil => []
+  | .cons tag _ rest => tag :: rest.tags
 
-/-- the fields written are context leaves tagged with (some of) the schema's tags -/
-theorem encodeFields_tags : ∀ (fs : List Field) (slots : List Slot) (vals : List Value) (rest : List Slot),
-    (∀ f ∈ fs, f.tag < 256) → encodeFields fs slots = some (vals, rest) →
-    ∀ v ∈ vals, CtxLeaf v ∧ ∃ f ∈ fs, ctxTagOf v = some f.tag
-  | [], slots, vals, rest, _, h => by
-    simp [encodeFields] at h; obtain ⟨rfl, rfl⟩ := h; intro v hv; simp at hv
-  | f :: fs, [], vals, rest, _, h => by simp [encodeFields] at h
-  | f :: fs, s :: ss, vals, rest, ht, h => by
-    simp only [encodeFields] at h
-    cases hf : encodeField f s with
-    | none => simp [hf] at h
-    | some vf =>
-      cases hr : encodeFields fs ss with
-      | none => simp [hf, hr] at h
-      | some pr =>
-        obtain ⟨vs, r⟩ := pr
-        simp [hf, hr] at h
-        obtain ⟨rfl, rfl⟩ := h
+mutual
+/-- every structure / payload enum (at any depth) has pairwise different context tags below 256 -/
+def _root_.TlvSchema.Ty.wf : Ty → Prop
+  | .struct _ fs => fs.wf ∧ fs.tags.Nodup
+  | .array _ el => el.wf
+  | .choice alts => alts.wf ∧ alts.tags.Nodup
+  | _ => True
+def _root_.TlvSchema.Fields.wf : Fields → Prop
+  | .nil => True
+  | .cons tag _ _ ty rest => tag < 256 ∧ ty.wf ∧ rest.wf
+  | .consSkip tag ty _ rest => tag < 256 ∧ ty.wf ∧ rest.wf
+def _root_.TlvSchema.Alts.wf : Alts → Prop
+  | .nil => True
+  | .cons tag ty rest => tag < 256 ∧ ty.wf ∧ rest.wf
+end
+
+mutual
+/-- executable check of `Ty.wf` -/
+def _root_.TlvSchema.Ty.wfb : Ty → Bool
+  | .struct _ fs => fs.wfb && decide fs.tags.Nodup
+  | .array _ el => el.wfb
+  | .choice alts => alts.wfb && decide alts.tags.Nodup
+  | _ => true
+def _root_.TlvSchema.Fields.wfb : Fields → Bool
+  | .nil => true
+  | .cons tag _ _ ty rest => decide (tag < 256) && ty.wfb && rest.wfb
+  | .consSkip tag ty _ rest => decide (tag < 256) && ty.wfb && rest.wfb
+def _root_.TlvSchema.Alts.wfb : Alts → Bool
+  | .nil => true
+  | .cons tag ty rest => decide (tag < 256) && ty.wfb && rest.wfb
+end
+
+mutual
+theorem Ty.wf_of_wfb : ∀ (ty : Ty), ty.wfb = true → ty.wf
+  | .uint _ _, _ => trivial
+  | .bool, _ => trivial
+  | .octets _ _, _ => trivial
+  | .utf8 _, _ => trivial
+  | .struct _ fs, h => by
+    simp only [Ty.wfb, Bool.and_eq_true, decide_eq_true_eq] at h
+    exact ⟨Fields.wf_of_wfb fs h.1, h.2⟩
+  | .array _ el, h => by
+    simp only [Ty.wfb] at h
+    exact Ty.wf_of_wfb el h
+  | .any, _ => trivial
+  | .choice alts, h => by
+    simp only [Ty.wfb, Bool.and_eq_true, decide_eq_true_eq] at h
+    exact ⟨Alts.wf_of_wfb alts h.1, h.2⟩
+theorem Alts.wf_of_wfb : ∀ (alts : Alts), alts.wfb = true → alts.wf
+  | .nil, _ => trivial
+  | .cons tag ty rest, h => by
+    simp only [Alts.wfb, Bool.and_eq_true, decide_eq_true_eq] at h
+    exact ⟨h.1.1, Ty.wf_of_wfb ty h.1.2, Alts.wf_of_wfb rest h.2⟩
+theorem Fields.wf_of_wfb : ∀ (fs : Fields), fs.wfb = true → fs.wf
+  | .nil, _ => trivial
+  | .cons tag _ _ ty rest, h => by
+    simp only [Fields.wfb, Bool.and_eq_true, decide_eq_true_eq] at h
+    exact ⟨h.1.1, Ty.wf_of_wfb ty h.1.2, Fields.wf_of_wfb rest h.2⟩
+  | .consSkip tag ty _ rest, h => by
+    simp only [Fields.wfb, Bool.and_eq_true, decide_eq_true_eq] at h
+    exact ⟨h.1.1, Ty.wf_of_wfb ty h.1.2, Fields.wf_of_wfb rest h.2⟩
+end
+
+/-! ### raw elements: executable well-formedness, retagging -/
+
+theorem tagWfb_sound (t : Tag) (h : tagWfb t = true) : t.wf := by
+  cases t <;> simp only [tagWfb, Bool.and_eq_true, decide_eq_true_eq] at h <;> simp only [Tag.wf] <;> first | trivial | exact h | exact ⟨h.1.1, h.1.2, h.2⟩
+
+theorem primWfb_sound (p : Prim) (h : primWfb p = true) : p.wf := by
+  cases p <;> simp only [primWfb, Bool.and_eq_true, decide_eq_true_eq] at h <;> simp only [Prim.wf] <;> first | trivial | exact h
+
+mutual
+theorem valueWfb_sound : ∀ (v : Value), valueWfb v = true → v.wf
+  | .leaf t p, h => by
+    simp only [valueWfb, Bool.and_eq_true] at h
+    exact ⟨tagWfb_sound t h.1, primWfb_sound p h.2⟩
+  | .cont t _ cs, h => by
+    simp only [valueWfb, Bool.and_eq_true] at h
+    exact ⟨tagWfb_sound t h.1, valuesWfb_sound cs h.2⟩
+theorem valuesWfb_sound : ∀ (vs : Values), valuesWfb vs = true → vs.wf
+  | .nil, _ => trivial
+  | .cons v vs, h => by
+    simp only [valuesWfb, Bool.and_eq_true] at h
+    exact ⟨valueWfb_sound v h.1, valuesWfb_sound vs h.2⟩
+end
+
+theorem retag_wf (v : Value) (t : Tag) (hv : v.wf) (ht : t.wf) : (v.retag t).wf := by
+  cases v with
+  | leaf _ p => exact ⟨ht, hv.2⟩
+  | cont _ k cs => exact ⟨ht, hv.2⟩
+
+theorem retag_tag (v : Value) (t : Tag) : (v.retag t).tag = t := by cases v <;> rfl
+
+theorem retag_retag_self (v : Value) (t : Tag) : (v.retag t).retag v.tag = v := by cases v <;> rfl
+
+theorem control_retag_null (v : Value) (t : Tag) (X : Bytes) (h : v.isNull = false) :
+    ∃ c, control (encode (v.retag t) ++ X) = .ok c ∧ c.vt ≠ .null := by
+  cases v with
+  | leaf t' p =>
+    refine ⟨_, control_leafE _ _ _, ?_⟩
+    cases p <;> simp_all [Value.isNull, Prim.vt]
+    rename_i b; cases b <;> simp [Prim.vt]
+  | cont t' k cs => exact ⟨_, by simp only [Value.retag]; rw [encode_cont_append, control_header], by simp⟩
+
+/-! ### what the derived encoder writes: well-formed values under the requested tag -/
+
+theorem encodeElems_shape (el : Ty) (hP : ∀ val v, encodeVal false el .anon val = some v → v.wf) :
+    ∀ (vs : Vals) (xs : List Value), encodeElems el vs = some xs → ∀ v ∈ xs, v.wf
+  | .nil, xs, h => by
+    simp only [encodeElems, Option.some.injEq] at h; subst h; intro v hv; simp at hv
+  | .cons a r, xs, h => by
+    simp only [encodeElems] at h
+    cases ha : encodeVal false el .anon a with
+    | none => simp [ha] at h
+    | some x =>
+      cases hr : encodeElems el r with
+      | none => simp [ha, hr] at h
+      | some rs =>
+        simp only [ha, hr, Option.some.injEq] at h; subst h
         intro v hv
-        rcases List.mem_append.mp hv with hv | hv
-        · rcases encodeField_shape f s vf (ht f (by simp)) hf with ⟨rfl, _, _⟩ | ⟨p, rfl, hp⟩
-          · simp at hv
-          · simp at hv; subst hv; exact ⟨hp, f, by simp, rfl⟩
-        · obtain ⟨h1, f', hf', h2⟩ := encodeFields_tags fs ss vs r (fun f' hf' => ht f' (by simp [hf'])) hr v hv
-          exact ⟨h1, f', by simp [hf'], h2⟩
+        rcases List.mem_cons.mp hv with rfl | hv
+        · exact hP a _ ha
+        · exact encodeElems_shape el hP r rs hr v hv
 
-theorem decodeFields_roundtrip (more : Bytes) : ∀ (fs : List Field) (slots : List Slot) (pre vals : List Value),
-    encodeFields fs slots = some (vals, []) →
-    (∀ f ∈ fs, f.tag < 256) → (fs.map (·.tag)).Nodup →
-    (∀ v ∈ pre, CtxLeaf v) → (∀ v ∈ pre, ∀ f ∈ fs, ctxTagOf v ≠ some f.tag) →
-    decodeFields (encodes (Values.ofList (pre ++ vals)) ++ endByte :: more) fs = .ok slots
-  | [], slots, pre, vals, h, _, _, _, _ => by
-    simp [encodeFields] at h; obtain ⟨_, rfl⟩ := h; rfl
-  | f :: fs, [], pre, vals, h, _, _, _, _ => by simp [encodeFields] at h
-  | f :: fs, s :: ss, pre, vals, h, ht, hnd, hpre, hdis => by
-    simp only [encodeFields] at h
-    cases hf : encodeField f s with
+mutual
+theorem encodeVal_shape : ∀ (ty : Ty) (nl : Bool) (t : Tag) (val : Val) (v : Value), ty.wf → t.wf →
+    encodeVal nl ty t val = some v → v.wf ∧ v.tag = t
+  | .uint w d, nl, t, val, v, hty, ht, h => by
+    cases val <;> simp only [encodeVal, reduceCtorEq] at h
+    rename_i n
+    split at h
+    · rename_i hc
+      simp only [Bool.and_eq_true, decide_eq_true_eq] at hc
+      simp only [Option.some.injEq] at h; subst h
+      exact ⟨⟨ht, uintPrim_wf w n hc.1.1⟩, rfl⟩
+    · simp at h
+  | .bool, nl, t, val, v, hty, ht, h => by
+    cases val <;> simp only [encodeVal, reduceCtorEq, Option.some.injEq] at h
+    subst h; exact ⟨⟨ht, trivial⟩, rfl⟩
+  | .octets lo cap, nl, t, val, v, hty, ht, h => by
+    cases val <;> simp only [encodeVal, reduceCtorEq] at h
+    rename_i b
+    split at h
+    · rename_i hc
+      simp only [Bool.and_eq_true, decide_eq_true_eq] at hc
+      simp only [Option.some.injEq] at h; subst h
+      exact ⟨⟨ht, mkStr_wf b hc.2⟩, rfl⟩
+    · simp at h
+  | .utf8 cap, nl, t, val, v, hty, ht, h => by
+    cases val <;> simp only [encodeVal, reduceCtorEq] at h
+    rename_i b
+    split at h
+    · rename_i hc
+      simp only [Bool.and_eq_true, decide_eq_true_eq] at hc
+      simp only [Option.some.injEq] at h; subst h
+      exact ⟨⟨ht, mkUtf8_wf b hc.1.2 hc.2⟩, rfl⟩
+    · simp at h
+  | .struct k fs, nl, t, val, v, hty, ht, h => by
+    cases val <;> simp only [encodeVal, reduceCtorEq] at h
+    rename_i ss
+    cases hf : encodeFields fs ss with
     | none => simp [hf] at h
-    | some vf =>
-      cases hr : encodeFields fs ss with
-      | none => simp [hf, hr] at h
-      | some pr =>
-        obtain ⟨vs, r⟩ := pr
-        simp [hf, hr] at h
-        obtain ⟨rfl, rfl⟩ := h
-        have htf := ht f (by simp)
-        have hts : ∀ f' ∈ fs, f'.tag < 256 := fun f' hf' => ht f' (by simp [hf'])
-        simp only [List.map_cons, List.nodup_cons] at hnd
-        obtain ⟨hnotin, hnd'⟩ := hnd
-        have hvs := encodeFields_tags fs ss vs [] hts hr
-        have hvs_ne : ∀ v ∈ vs, ctxTagOf v ≠ some f.tag := by
-          intro v hv heq
-          obtain ⟨_, f', hf', h2⟩ := hvs v hv
-          rw [h2] at heq; simp at heq
-          exact hnotin (List.mem_map.mpr ⟨f', hf', heq⟩)
-        have hshape := encodeField_shape f s vf htf hf
-        have hall : ∀ v ∈ pre ++ (vf ++ vs), CtxLeaf v := by
-          intro v hv
-          rcases List.mem_append.mp hv with hv | hv
-          · exact hpre v hv
-          · rcases List.mem_append.mp hv with hv | hv
-            · rcases hshape with ⟨rfl, _, _⟩ | ⟨p, rfl, hp⟩
-              · simp at hv
-              · simp at hv; subst hv; exact hp
-            · exact (hvs v hv).1
-        have hfind := findCtx_fields (pre ++ (vf ++ vs)) f.tag more hall
-        rw [suffixAt_skip pre _ f.tag more (fun v hv => hdis v hv f (by simp))] at hfind
-        -- the recursive call sees the same sequence with `vf` moved into the prefix
-        have hrec := decodeFields_roundtrip more fs ss (pre ++ vf) vs hr hts hnd'
-          (by
+    | some vs =>
+      simp only [hf, Option.some.injEq] at h; subst h
+      have := encodeFields_shape fs ss vs hty.1 hf
+      exact ⟨⟨ht, ofList_wf vs fun v hv => (this v hv).2⟩, rfl⟩
+  | .array cap el, nl, t, val, v, hty, ht, h => by
+    cases val <;> simp only [encodeVal, reduceCtorEq] at h
+    rename_i vs
+    split at h
+    · cases he : encodeElems el vs with
+      | none => simp [he] at h
+      | some xs =>
+        simp only [he, Option.some.injEq] at h; subst h
+        have := encodeElems_shape el (fun val v hv => (encodeVal_shape el false .anon val v hty trivial hv).1) vs xs he
+        exact ⟨⟨ht, ofList_wf xs this⟩, rfl⟩
+    · simp at h
+  | .any, nl, t, val, v, hty, ht, h => by
+    cases val <;> simp only [encodeVal, reduceCtorEq] at h
+    rename_i rv
+    split at h
+    · rename_i hc
+      simp only [Bool.and_eq_true] at hc
+      simp only [Option.some.injEq] at h; subst h
+      exact ⟨retag_wf rv t (valueWfb_sound rv hc.1.2) ht, retag_tag rv t⟩
+    · simp at h
+  | .choice alts, nl, t, val, v, hty, ht, h => by
+    cases val <;> simp only [encodeVal, reduceCtorEq] at h
+    rename_i i a
+    cases hg : alts.get i with
+    | none => simp [hg] at h
+    | some pr =>
+      obtain ⟨tag, ty⟩ := pr
+      cases ha : encodeVal false ty (.ctx tag) a with
+      | none => simp [hg, ha] at h
+      | some x =>
+        simp only [hg, ha, Option.some.injEq] at h; subst h
+        obtain ⟨htag, _, _, hx⟩ := encodeAlts_shape alts i tag ty hty.1 hg
+        have := hx false (.ctx tag) a x (by simp only [Tag.wf]; omega) ha
+        exact ⟨⟨ht, this.1, trivial⟩, rfl⟩
+theorem encodeAlts_shape : ∀ (alts : Alts) (i tag : Nat) (ty : Ty), alts.wf → alts.get i = some (tag, ty) →
+    tag < 256 ∧ tag ∈ alts.tags ∧ ty.wf ∧
+      ∀ (nl : Bool) (t : Tag) (val : Val) (v : Value), t.wf → encodeVal nl ty t val = some v → v.wf ∧ v.tag = t
+  | .nil, i, tag, ty, _, h => by simp [Alts.get] at h
+  | .cons tg ty' rest, 0, tag, ty, hw, h => by
+    simp only [Alts.get, Option.some.injEq, Prod.mk.injEq] at h
+    obtain ⟨rfl, rfl⟩ := h
+    exact ⟨hw.1, by simp [Alts.tags], hw.2.1, fun nl t val v ht hv => encodeVal_shape ty' nl t val v hw.2.1 ht hv⟩
+  | .cons tg ty' rest, i + 1, tag, ty, hw, h => by
+    simp only [Alts.get] at h
+    obtain ⟨h1, h2, h3, h4⟩ := encodeAlts_shape rest i tag ty hw.2.2 h
+    exact ⟨h1, by simp [Alts.tags, h2], h3, h4⟩
+theorem encodeFields_shape : ∀ (fs : Fields) (ss : Slots) (vals : List Value), fs.wf →
+    encodeFields fs ss = some vals → ∀ v ∈ vals, (∃ tag ∈ fs.tags, v.tag = .ctx tag) ∧ v.wf
+  | .nil, ss, vals, _, h => by
+    cases ss <;> simp only [encodeFields, reduceCtorEq, Option.some.injEq] at h
+    subst h; intro v hv; simp at hv
+  | .cons tag o n ty rest, ss, vals, hw, h => by
+    obtain ⟨htag, htyw, hrw⟩ := hw
+    have htw : (Tag.ctx tag).wf := by simp only [Tag.wf]; omega
+    cases ss with
+    | nil => simp only [encodeFields, reduceCtorEq] at h
+    | cons s r =>
+      have lift : ∀ (rs : List Value), encodeFields rest r = some rs →
+          ∀ v ∈ rs, (∃ tg ∈ (Fields.cons tag o n ty rest).tags, v.tag = .ctx tg) ∧ v.wf := by
+        intro rs hrs v hv
+        obtain ⟨⟨tg, h1, h2⟩, h3⟩ := encodeFields_shape rest r rs hrw hrs v hv
+        exact ⟨⟨tg, by simp [Fields.tags, h1], h2⟩, h3⟩
+      cases s with
+      | absent =>
+        simp only [encodeFields] at h
+        split at h
+        · exact lift vals h
+        · simp at h
+      | null =>
+        simp only [encodeFields] at h
+        split at h
+        · cases hr : encodeFields rest r with
+          | none => simp [hr] at h
+          | some rs =>
+            simp only [hr, Option.some.injEq] at h; subst h
+            intro v hv
+            rcases List.mem_cons.mp hv with rfl | hv
+            · exact ⟨⟨tag, by simp [Fields.tags], rfl⟩, htw, trivial⟩
+            · exact lift rs hr v hv
+        · simp at h
+      | val a =>
+        simp only [encodeFields] at h
+        cases ha : encodeVal n ty (.ctx tag) a with
+        | none => simp [ha] at h
+        | some x =>
+          cases hr : encodeFields rest r with
+          | none => simp [ha, hr] at h
+          | some rs =>
+            simp only [ha, hr, Option.some.injEq] at h; subst h
+            intro v hv
+            rcases List.mem_cons.mp hv with rfl | hv
+            · obtain ⟨h1, h2⟩ := encodeVal_shape ty n (.ctx tag) a _ htyw htw ha
+              exact ⟨⟨tag, by simp [Fields.tags], h2⟩, h1⟩
+            · exact lift rs hr v hv
+  | .consSkip tag ty dflt rest, ss, vals, hw, h => by
+    obtain ⟨htag, htyw, hrw⟩ := hw
+    have htw : (Tag.ctx tag).wf := by simp only [Tag.wf]; omega
+    cases ss with
+    | nil => simp only [encodeFields, reduceCtorEq] at h
+    | cons s r =>
+      cases s with
+      | absent => simp only [encodeFields, reduceCtorEq] at h
+      | null => simp only [encodeFields, reduceCtorEq] at h
+      | val a =>
+        simp only [encodeFields] at h
+        cases ha : encodeVal false ty (.ctx tag) a with
+        | none => simp [ha] at h
+        | some x =>
+          cases hr : encodeFields rest r with
+          | none => simp [ha, hr] at h
+          | some rs =>
+            simp only [ha, hr, Option.some.injEq] at h; subst h
+            intro v hv
+            rcases List.mem_cons.mp hv with rfl | hv
+            · obtain ⟨h1, h2⟩ := encodeVal_shape ty false (.ctx tag) a _ htyw htw ha
+              exact ⟨⟨tag, by simp [Fields.tags], h2⟩, h1⟩
+            · obtain ⟨⟨tg, h1, h2⟩, h3⟩ := encodeFields_shape rest r rs hrw hr v hv
+              exact ⟨⟨tg, by simp [Fields.tags, h1], h2⟩, h3⟩
+end
+
+/-! ### per-field decoding -/
+
+theorem Fields.tags_lt : ∀ (fs : Fields), fs.wf → ∀ tag ∈ fs.tags, tag < 256
+  | .nil, _, tag, h => by simp [Fields.tags] at h
+  | .cons tg _ _ _ rest, hw, tag, h => by
+    simp only [Fields.tags, List.mem_cons] at h
+    rcases h with rfl | h
+    · exact hw.1
+    · exact Fields.tags_lt rest hw.2.2 tag h
+  | .consSkip tg _ _ rest, hw, tag, h => by
+    simp only [Fields.tags, List.mem_cons] at h
+    rcases h with rfl | h
+    · exact hw.1
+    · exact Fields.tags_lt rest hw.2.2 tag h
+
+/-- a written field value is never a TLV null and never empty -/
+theorem encodeVal_control (ty : Ty) (nl : Bool) (t : Tag) (val : Val) (v : Value) (X : Bytes)
+    (h : encodeVal nl ty t val = some v) : ∃ c, control (encode v ++ X) = .ok c ∧ (nl = true → c.vt ≠ .null) := by
+  cases ty with
+  | uint w d =>
+    cases val <;> simp only [encodeVal, reduceCtorEq] at h
+    rename_i n
+    split at h
+    · simp only [Option.some.injEq] at h; subst h
+      obtain ⟨w', hw'⟩ := uintPrim_eq w n
+      exact ⟨_, control_leafE _ _ _, fun _ => by rw [hw']; simp [Prim.vt]⟩
+    · simp at h
+  | bool =>
+    cases val <;> simp only [encodeVal, reduceCtorEq, Option.some.injEq] at h
+    subst h; rename_i b
+    exact ⟨_, control_leafE _ _ _, fun _ => by cases b <;> simp [Prim.vt]⟩
+  | octets lo cap =>
+    cases val <;> simp only [encodeVal, reduceCtorEq] at h
+    split at h
+    · simp only [Option.some.injEq] at h; subst h
+      exact ⟨_, control_leafE _ _ _, fun _ => by simp [Prim.vt, Prim.mkStr]⟩
+    · simp at h
+  | utf8 cap =>
+    cases val <;> simp only [encodeVal, reduceCtorEq] at h
+    split at h
+    · simp only [Option.some.injEq] at h; subst h
+      exact ⟨_, control_leafE _ _ _, fun _ => by simp [Prim.vt, Prim.mkUtf8]⟩
+    · simp at h
+  | struct k fs =>
+    cases val <;> simp only [encodeVal, reduceCtorEq] at h
+    rename_i ss
+    cases hf : encodeFields fs ss with
+    | none => simp [hf] at h
+    | some vs =>
+      simp only [hf, Option.some.injEq] at h; subst h
+      exact ⟨_, by rw [encode_cont_append, control_header], fun _ => by simp⟩
+  | array cap el =>
+    cases val <;> simp only [encodeVal, reduceCtorEq] at h
+    rename_i vs
+    split at h
+    · cases he : encodeElems el vs with
+      | none => simp [he] at h
+      | some xs =>
+        simp only [he, Option.some.injEq] at h; subst h
+        exact ⟨_, by rw [encode_cont_append, control_header], fun _ => by simp⟩
+    · simp at h
+  | any =>
+    cases val <;> simp only [encodeVal, reduceCtorEq] at h
+    rename_i rv
+    split at h
+    · rename_i hc
+      simp only [Bool.and_eq_true, Bool.or_eq_true, Bool.not_eq_true'] at hc
+      simp only [Option.some.injEq] at h; subst h
+      obtain ⟨c, hc1, _⟩ := control_encode (rv.retag t) X
+      refine ⟨c, hc1, fun hnl => ?_⟩
+      have hnn : rv.isNull = false := by
+        rcases hc.2 with h2 | h2
+        · simp [hnl] at h2
+        · exact h2
+      obtain ⟨c', hc2, hc3⟩ := control_retag_null rv t X hnn
+      rw [hc1] at hc2; cases hc2; exact hc3
+    · simp at h
+  | choice alts =>
+    cases val <;> simp only [encodeVal, reduceCtorEq] at h
+    rename_i i a
+    cases hg : alts.get i with
+    | none => simp [hg] at h
+    | some pr =>
+      obtain ⟨tag, ty⟩ := pr
+      cases ha : encodeVal false ty (.ctx tag) a with
+      | none => simp [hg, ha] at h
+      | some x =>
+        simp only [hg, ha, Option.some.injEq] at h; subst h
+        exact ⟨_, by rw [encode_cont_append, control_header], fun _ => by simp⟩
+
+/-- the part of the derived field decoder after `find_ctx` -/
+def decodeSlotAt (o n : Bool) (ty : Ty) (e : Bytes) : Res Slot :=
+  if o && e.isEmpty then pure Slot.absent
+  else if n then do
+    let c ← control e
+    if c.vt = .null then pure Slot.null else do
+      let v ← decodeVal true ty e
+      pure (Slot.val v)
+  else do
+    let v ← decodeVal false ty e
+    pure (Slot.val v)
+
+theorem decodeFields_cons (seq : Bytes) (tag : Nat) (o n : Bool) (ty : Ty) (rest : Fields) :
+    decodeFields seq (.cons tag o n ty rest) = (do
+      let e ← findCtx seq tag
+      let s ← decodeSlotAt o n ty e
+      let r ← decodeFields seq rest
+      pure (.cons s r)) := by
+  simp only [decodeFields, decodeSlotAt]
+
+theorem decodeFields_consSkip (seq : Bytes) (tag : Nat) (ty : Ty) (dflt : Val) (rest : Fields) :
+    decodeFields seq (.consSkip tag ty dflt rest) = (do
+      let e ← findCtx seq tag
+      let s ← (if e.isEmpty then pure (Slot.val dflt) else do
+        let v ← decodeVal false ty e
+        pure (Slot.val v))
+      let r ← decodeFields seq rest
+      pure (.cons s r)) := by
+  simp only [decodeFields]
+
+theorem decodeSlotAt_absent (n : Bool) (ty : Ty) : decodeSlotAt true n ty [] = .ok .absent := by
+  simp [decodeSlotAt]
+
+theorem decodeSlotAt_null (o : Bool) (ty : Ty) (t : Tag) (X : Bytes) :
+    decodeSlotAt o true ty (encode (.leaf t .null) ++ X) = .ok .null := by
+  simp only [decodeSlotAt, encode_ne_nil, Bool.and_false, Bool.false_eq_true, if_false, if_true, control_leafE,
+    Res.ok_bind, Prim.vt, Res.pure_eq]
+
+theorem decodeSlotAt_val (o n : Bool) (ty : Ty) (t : Tag) (a : Val) (x : Value) (X : Bytes)
+    (h : encodeVal n ty t a = some x) (hdec : decodeVal n ty (encode x ++ X) = .ok a) :
+    decodeSlotAt o n ty (encode x ++ X) = .ok (.val a) := by
+  obtain ⟨c, hc, hnn⟩ := encodeVal_control ty n t a x X h
+  cases n with
+  | true =>
+    simp only [decodeSlotAt, encode_ne_nil, Bool.and_false, Bool.false_eq_true, if_false, if_true, hc,
+      Res.ok_bind, hnn rfl, hdec, Res.pure_eq]
+  | false =>
+    simp only [decodeSlotAt, encode_ne_nil, Bool.and_false, Bool.false_eq_true, if_false, hdec, Res.ok_bind, Res.pure_eq]
+
+/-! ### the round trip, by mutual structural induction over the schema -/
+
+theorem decodeSeqWith_encodes (el : Ty) (more : Bytes)
+    (hP : ∀ (val : Val) (v : Value) (X : Bytes), encodeVal false el .anon val = some v → (encode v).length + 1 < USIZE →
+      decodeVal false el (encode v ++ X) = .ok val) :
+    ∀ (vs : Vals) (xs : List Value), encodeElems el vs = some xs → (encodes (Values.ofList xs)).length + 1 < USIZE →
+      decodeSeqWith (decodeVal false el) ((childSuffixes (Values.ofList xs) more).map .ok) = .ok vs
+  | .nil, xs, h, _ => by
+    simp only [encodeElems, Option.some.injEq] at h; subst h; rfl
+  | .cons a r, xs, h, hd => by
+    simp only [encodeElems] at h
+    cases ha : encodeVal false el .anon a with
+    | none => simp [ha] at h
+    | some x =>
+      cases hr : encodeElems el r with
+      | none => simp [ha, hr] at h
+      | some rs =>
+        simp only [ha, hr, Option.some.injEq] at h; subst h
+        have hdx : (encode x).length + 1 < USIZE := by
+          have := ofList_len_mem (x :: rs) x (by simp); omega
+        have hdr : (encodes (Values.ofList rs)).length + 1 < USIZE := by
+          have := ofList_len_tail x rs; omega
+        simp only [Values.ofList, childSuffixes, List.map_cons, decodeSeqWith, Res.ok_bind, hP a x _ ha hdx,
+          decodeSeqWith_encodes el more hP r rs hr hdr, Res.pure_eq]
+
+mutual
+theorem decodeVal_encode : ∀ (ty : Ty) (nl : Bool) (t : Tag) (val : Val) (v : Value) (X : Bytes),
+    ty.wf → t.wf → encodeVal nl ty t val = some v → (encode v).length + 1 < USIZE →
+    decodeVal nl ty (encode v ++ X) = .ok val
+  | .uint w d, nl, t, val, v, X, _hty, _ht, h, _hd => by
+    cases val <;> simp only [encodeVal, reduceCtorEq] at h
+    rename_i n
+    split at h
+    · rename_i hc
+      simp only [Bool.and_eq_true, decide_eq_true_eq, Bool.or_eq_true, Bool.not_eq_true', bne_iff_ne, ne_eq] at hc
+      obtain ⟨⟨h1, h2⟩, h3⟩ := hc
+      simp only [Option.some.injEq] at h; subst h
+      have hne : (nl && n == wmax w) = false := by
+        rcases h3 with h3 | h3
+        · simp [h3]
+        · simp [h3]
+      simp only [decodeVal, readUint_written t w n X h1, Res.ok_bind, hne, Bool.false_eq_true, if_false, h2, if_true,
+        Res.pure_eq]
+    · simp at h
+  | .bool, nl, t, val, v, X, _hty, _ht, h, _hd => by
+    cases val <;> simp only [encodeVal, reduceCtorEq, Option.some.injEq] at h
+    subst h; rename_i b
+    simp only [decodeVal, (bool_null_roundtrip t b X).1, Res.ok_bind, Res.pure_eq]
+  | .octets lo cap, nl, t, val, v, X, _hty, _ht, h, _hd => by
+    cases val <;> simp only [encodeVal, reduceCtorEq] at h
+    rename_i b
+    split at h
+    · rename_i hc
+      simp only [Bool.and_eq_true, decide_eq_true_eq] at hc
+      simp only [Option.some.injEq] at h; subst h
+      have := (str_roundtrip t (lenWidth b.length) b X (mkStr_wf b hc.2)).1
+      simp only [decodeVal, Prim.mkStr, this, Res.ok_bind, hc.1.1, hc.1.2, decide_true, Bool.and_self, if_true, Res.pure_eq]
+    · simp at h
+  | .utf8 cap, nl, t, val, v, X, _hty, _ht, h, _hd => by
+    cases val <;> simp only [encodeVal, reduceCtorEq] at h
+    rename_i b
+    split at h
+    · rename_i hc
+      simp only [Bool.and_eq_true, decide_eq_true_eq] at hc
+      simp only [Option.some.injEq] at h; subst h
+      have := utf8_roundtrip t (lenWidth b.length) b X (mkUtf8_wf b hc.1.2 hc.2)
+      simp only [decodeVal, Prim.mkUtf8, this, Res.ok_bind, hc.1.1, if_true, Res.pure_eq]
+    · simp at h
+  | .struct k fs, nl, t, val, v, X, hty, _ht, h, hd => by
+    cases val <;> simp only [encodeVal, reduceCtorEq] at h
+    rename_i ss
+    cases hf : encodeFields fs ss with
+    | none => simp [hf] at h
+    | some vs =>
+      simp only [hf, Option.some.injEq] at h; subst h
+      have hcl := encode_cont_len t k (Values.ofList vs)
+      have := decodeFields_encode fs ss [] vs X hty.1 hty.2 hf (by simp) (by simp) (by simpa using by omega)
+      simp only [List.nil_append] at this
+      simp only [decodeVal, enter_cont, Res.ok_bind, this, Res.pure_eq]
+  | .array cap el, nl, t, val, v, X, hty, _ht, h, hd => by
+    cases val <;> simp only [encodeVal, reduceCtorEq] at h
+    rename_i vs
+    split at h
+    · rename_i hcap
+      cases he : encodeElems el vs with
+      | none => simp [he] at h
+      | some xs =>
+        simp only [he, Option.some.injEq] at h; subst h
+        have hcl := encode_cont_len t .array (Values.ofList xs)
+        have hwf : (Values.ofList xs).wf := ofList_wf xs
+          (encodeElems_shape el (fun val v hv => (encodeVal_shape el false .anon val v hty trivial hv).1) vs xs he)
+        have hseq := decodeSeqWith_encodes el X
+          (fun val v X' hv hdv => decodeVal_encode el false .anon val v X' hty trivial hv hdv) vs xs he (by omega)
+        have hne : (encode (Value.cont t Kind.array (Values.ofList xs)) ++ X).isEmpty = false := encode_ne_nil _ _
+        have harr : arrayOf (encode (Value.cont t Kind.array (Values.ofList xs)) ++ X) = .ok (encodes (Values.ofList xs) ++ endByte :: X) :=
+          enter_cont .array t _ X
+        simp only [decodeVal, arrayNew, hne, Bool.false_eq_true, if_false, harr, Res.ok_bind, Res.pure_eq,
+          containerOrEmpty, containerOf_cont,
+          elements_encodes _ X hwf (Values.depth_lt_of_len _ (by omega)), hseq, hcap, if_true]
+    · simp at h
+  | .any, nl, t, val, v, X, _hty, ht, h, hl => by
+    cases val <;> simp only [encodeVal, reduceCtorEq] at h
+    rename_i rv
+    split at h
+    · rename_i hc
+      simp only [Bool.and_eq_true, beq_iff_eq] at hc
+      simp only [Option.some.injEq] at h; subst h
+      have hwf := retag_wf rv t (valueWfb_sound rv hc.1.2) ht
+      have hdep : (rv.retag t).depth ≤ (encode (rv.retag t) ++ X).length := by
+        have h1 := Value.depth_le_ntoks (rv.retag t)
+        have h2 := Value.ntoks_le (rv.retag t)
+        simp only [List.length_append]; omega
+      have hback : (rv.retag t).retag .anon = rv := by
+        have := retag_retag_self rv t
+        rw [hc.1.1] at this; exact this
+      simp only [decodeVal, encode_ne_nil, Bool.false_eq_true, if_false,
+        decodeTree_encode (rv.retag t) _ X hwf hl hdep, Res.ok_bind, hback, Res.pure_eq]
+    · simp at h
+  | .choice alts, nl, t, val, v, X, hty, _ht, h, hl => by
+    cases val <;> simp only [encodeVal, reduceCtorEq] at h
+    rename_i i a
+    cases hg : alts.get i with
+    | none => simp [hg] at h
+    | some pr =>
+      obtain ⟨tag, ty⟩ := pr
+      cases ha : encodeVal false ty (.ctx tag) a with
+      | none => simp [hg, ha] at h
+      | some x =>
+        simp only [hg, ha, Option.some.injEq] at h; subst h
+        obtain ⟨htag, _, htyw, hx⟩ := encodeAlts_shape alts i tag ty hty.1 hg
+        obtain ⟨hxw, hxt⟩ := hx false (.ctx tag) a x (by simp only [Tag.wf]; omega) ha
+        have hcl := encode_cont_len t .struct (Values.cons x .nil)
+        have hxl : (encode x).length + 1 < USIZE := by
+          simp only [encodes, List.append_nil] at hcl; omega
+        have hxd : x.depth + 1 < USIZE := by
+          have h1 := Value.depth_le_ntoks x
+          have h2 := Value.ntoks_le x
+          omega
+        have hst : structOf (encode (Value.cont t Kind.struct (Values.cons x .nil)) ++ X) =
+            .ok (encode x ++ endByte :: X) := by
+          have := enter_cont .struct t (Values.cons x .nil) X
+          simpa [enter, encodes] using this
+        have halt := decodeAlts_encode alts i tag ty 0 a x (endByte :: X) hty.1 hty.2 hg ha hxl
+        simp only [decodeVal, hst, Res.ok_bind, iterNext_encode x (endByte :: X) hxw hxd,
+          tryCtx_encode x tag _ hxt htag, okOr, halt, Nat.zero_add]
+theorem decodeAlts_encode : ∀ (alts : Alts) (i tag : Nat) (ty : Ty) (base : Nat) (a : Val) (x : Value) (X : Bytes),
+    alts.wf → alts.tags.Nodup → alts.get i = some (tag, ty) → encodeVal false ty (.ctx tag) a = some x →
+    (encode x).length + 1 < USIZE →
+    decodeAlts alts base tag (encode x ++ X) = .ok (.variant (base + i) a)
+  | .nil, i, tag, ty, base, a, x, X, _, _, hg, _, _ => by simp [Alts.get] at hg
+  | .cons tg ty' rest, 0, tag, ty, base, a, x, X, hw, _, hg, ha, hl => by
+    simp only [Alts.get, Option.some.injEq, Prod.mk.injEq] at hg
+    obtain ⟨rfl, rfl⟩ := hg
+    have := decodeVal_encode ty' false (.ctx tg) a x X hw.2.1 (by simp only [Tag.wf]; have := hw.1; omega) ha hl
+    simp only [decodeAlts, if_true, this, Res.ok_bind, Nat.add_zero, Res.pure_eq]
+  | .cons tg ty' rest, i + 1, tag, ty, base, a, x, X, hw, hnd, hg, ha, hl => by
+    simp only [Alts.get] at hg
+    simp only [Alts.tags, List.nodup_cons] at hnd
+    obtain ⟨_, hin, _, _⟩ := encodeAlts_shape rest i tag ty hw.2.2 hg
+    have hne : tg ≠ tag := fun e => hnd.1 (e ▸ hin)
+    have := decodeAlts_encode rest i tag ty (base + 1) a x X hw.2.2 hnd.2 hg ha hl
+    simp only [decodeAlts, hne, if_false, this]
+    congr 2; omega
+theorem decodeFields_encode : ∀ (fs : Fields) (ss : Slots) (pre vals : List Value) (more : Bytes),
+    fs.wf → fs.tags.Nodup → encodeFields fs ss = some vals →
+    (∀ v ∈ pre, CtxVal v) → (∀ v ∈ pre, ∀ tag ∈ fs.tags, ctxTagOf v ≠ some tag) →
+    (encodes (Values.ofList (pre ++ vals))).length + 1 < USIZE →
+    decodeFields (encodes (Values.ofList (pre ++ vals)) ++ endByte :: more) fs = .ok ss
+  | .nil, ss, pre, vals, more, _, _, h, _, _, _ => by
+    cases ss <;> simp only [encodeFields, reduceCtorEq, Option.some.injEq] at h
+    rfl
+  | .cons tag o n ty rest, ss, pre, vals, more, hw, hnd, h, hpre, hdis, hd => by
+    obtain ⟨htag, htyw, hrw⟩ := hw
+    have htw : (Tag.ctx tag).wf := by simp only [Tag.wf]; omega
+    simp only [Fields.tags, List.nodup_cons] at hnd
+    obtain ⟨hnotin, hnd'⟩ := hnd
+    cases ss with
+    | nil => simp only [encodeFields, reduceCtorEq] at h
+    | cons s r =>
+      -- facts about the values written by the remaining fields
+      have hrest : ∀ (rs : List Value), encodeFields rest r = some rs →
+          (∀ v ∈ rs, CtxVal v) ∧ (∀ v ∈ rs, ctxTagOf v ≠ some tag) := by
+        intro rs hrs
+        refine ⟨fun v hv => ?_, fun v hv heq => ?_⟩
+        · obtain ⟨⟨tg, h1, h2⟩, h3⟩ := encodeFields_shape rest r rs hrw hrs v hv
+          exact ⟨tg, h2, Fields.tags_lt rest hrw tg h1, h3⟩
+        · obtain ⟨⟨tg, h1, h2⟩, _⟩ := encodeFields_shape rest r rs hrw hrs v hv
+          rw [ctxTagOf_eq h2] at heq
+          simp only [Option.some.injEq] at heq
+          exact hnotin (heq ▸ h1)
+      have hpre_ne : ∀ v ∈ pre, ctxTagOf v ≠ some tag := fun v hv => hdis v hv tag (by simp [Fields.tags])
+      have hdis' : ∀ v ∈ pre, ∀ tg ∈ rest.tags, ctxTagOf v ≠ some tg :=
+        fun v hv tg htg => hdis v hv tg (by simp [Fields.tags, htg])
+      rw [decodeFields_cons]
+      cases s with
+      | absent =>
+        simp only [encodeFields] at h
+        split at h
+        · rename_i ho
+          obtain ⟨hc, hne⟩ := hrest vals h
+          have hall : ∀ v ∈ pre ++ vals, CtxVal v := by
             intro v hv
             rcases List.mem_append.mp hv with hv | hv
             · exact hpre v hv
-            · exact hall v (by simp [hv]))
-          (by
-            intro v hv f' hf'
-            rcases List.mem_append.mp hv with hv | hv
-            · exact hdis v hv f' (by simp [hf'])
-            · rcases hshape with ⟨rfl, _, _⟩ | ⟨p, rfl, _⟩
-              · simp at hv
-              · simp at hv; subst hv
-                simp only [ctxTagOf, ne_eq, Option.some.injEq]
-                intro heq
-                exact hnotin (List.mem_map.mpr ⟨f', hf', heq.symm⟩))
-        rw [List.append_assoc] at hrec
-        simp only [decodeFields, decodeField_eq, hfind, Res.ok_bind]
-        rcases hshape with ⟨rfl, rfl, hopt⟩ | ⟨p, rfl, _⟩
-        · simp only [List.nil_append] at hrec ⊢
-          rw [suffixAt_none vs f.tag more hvs_ne, decodeAt_absent f hopt, Res.ok_bind, hrec]; rfl
-        · simp only [List.cons_append, List.nil_append, suffixAt, ctxTagOf, if_true] at hrec ⊢
-          rw [decodeAt_written f s p _ hf, Res.ok_bind, hrec]; rfl
+            · exact hc v hv
+          rw [findCtx_fields (pre ++ vals) tag more hall (Values.depth_lt_of_len _ hd), suffixAt_skip pre _ tag more hpre_ne,
+            suffixAt_none vals tag more hne]
+          subst ho
+          simp only [Res.ok_bind, decodeSlotAt_absent,
+            decodeFields_encode rest r pre vals more hrw hnd' h hpre hdis' hd, Res.pure_eq]
+        · simp at h
+      | null =>
+        simp only [encodeFields] at h
+        split at h
+        · rename_i hn
+          cases hr : encodeFields rest r with
+          | none => simp [hr] at h
+          | some rs =>
+            simp only [hr, Option.some.injEq] at h; subst h
+            obtain ⟨hc, hne⟩ := hrest rs hr
+            have hx : CtxVal (.leaf (.ctx tag) .null) := ⟨tag, rfl, htag, htw, trivial⟩
+            have hall : ∀ v ∈ pre ++ (Value.leaf (.ctx tag) .null :: rs), CtxVal v := by
+              intro v hv
+              rcases List.mem_append.mp hv with hv | hv
+              · exact hpre v hv
+              · rcases List.mem_cons.mp hv with rfl | hv
+                · exact hx
+                · exact hc v hv
+            rw [findCtx_fields _ tag more hall (Values.depth_lt_of_len _ hd), suffixAt_skip pre _ tag more hpre_ne, suffixAt_head _ _ _ _ rfl]
+            subst hn
+            have hrec := decodeFields_encode rest r (pre ++ [Value.leaf (.ctx tag) .null]) rs more hrw hnd' hr
+              (by
+                intro v hv
+                rcases List.mem_append.mp hv with hv | hv
+                · exact hpre v hv
+                · simp only [List.mem_singleton] at hv; subst hv; exact hx)
+              (by
+                intro v hv tg htg
+                rcases List.mem_append.mp hv with hv | hv
+                · exact hdis' v hv tg htg
+                · simp only [List.mem_singleton] at hv; subst hv
+                  simp only [ctxTagOf, Value.tag, ne_eq, Option.some.injEq]
+                  intro heq; exact hnotin (heq ▸ htg))
+              (by simpa [List.append_assoc] using hd)
+            simp only [List.append_assoc, List.cons_append, List.nil_append] at hrec
+            simp only [Res.ok_bind, decodeSlotAt_null, hrec, Res.pure_eq]
+        · simp at h
+      | val a =>
+        simp only [encodeFields] at h
+        cases ha : encodeVal n ty (.ctx tag) a with
+        | none => simp [ha] at h
+        | some x =>
+          cases hr : encodeFields rest r with
+          | none => simp [ha, hr] at h
+          | some rs =>
+            simp only [ha, hr, Option.some.injEq] at h; subst h
+            obtain ⟨hc, hne⟩ := hrest rs hr
+            obtain ⟨hxw, hxt⟩ := encodeVal_shape ty n (.ctx tag) a x htyw htw ha
+            have hx : CtxVal x := ⟨tag, hxt, htag, hxw⟩
+            have hall : ∀ v ∈ pre ++ (x :: rs), CtxVal v := by
+              intro v hv
+              rcases List.mem_append.mp hv with hv | hv
+              · exact hpre v hv
+              · rcases List.mem_cons.mp hv with rfl | hv
+                · exact hx
+                · exact hc v hv
+            rw [findCtx_fields _ tag more hall (Values.depth_lt_of_len _ hd), suffixAt_skip pre _ tag more hpre_ne, suffixAt_head _ _ _ _ hxt]
+            have hdx : (encode x).length + 1 < USIZE := by
+              have := ofList_len_mem (pre ++ x :: rs) x (by simp); omega
+            have hdec := decodeVal_encode ty n (.ctx tag) a x (encodes (Values.ofList rs) ++ endByte :: more)
+              htyw htw ha hdx
+            have hrec := decodeFields_encode rest r (pre ++ [x]) rs more hrw hnd' hr
+              (by
+                intro v hv
+                rcases List.mem_append.mp hv with hv | hv
+                · exact hpre v hv
+                · simp only [List.mem_singleton] at hv; subst hv; exact hx)
+              (by
+                intro v hv tg htg
+                rcases List.mem_append.mp hv with hv | hv
+                · exact hdis' v hv tg htg
+                · simp only [List.mem_singleton] at hv; subst hv
+                  rw [ctxTagOf_eq hxt]
+                  simp only [ne_eq, Option.some.injEq]
+                  intro heq; exact hnotin (heq ▸ htg))
+              (by simpa [List.append_assoc] using hd)
+            simp only [List.append_assoc, List.cons_append, List.nil_append] at hrec
+            simp only [Res.ok_bind, decodeSlotAt_val o n ty (.ctx tag) a x _ ha hdec, hrec, Res.pure_eq]
+  | .consSkip tag ty dflt rest, ss, pre, vals, more, hw, hnd, h, hpre, hdis, hd => by
+    obtain ⟨htag, htyw, hrw⟩ := hw
+    have htw : (Tag.ctx tag).wf := by simp only [Tag.wf]; omega
+    simp only [Fields.tags, List.nodup_cons] at hnd
+    obtain ⟨hnotin, hnd'⟩ := hnd
+    cases ss with
+    | nil => simp only [encodeFields, reduceCtorEq] at h
+    | cons s r =>
+      cases s with
+      | absent => simp only [encodeFields, reduceCtorEq] at h
+      | null => simp only [encodeFields, reduceCtorEq] at h
+      | val a =>
+        simp only [encodeFields] at h
+        cases ha : encodeVal false ty (.ctx tag) a with
+        | none => simp [ha] at h
+        | some x =>
+          cases hr : encodeFields rest r with
+          | none => simp [ha, hr] at h
+          | some rs =>
+            simp only [ha, hr, Option.some.injEq] at h; subst h
+            have hpre_ne : ∀ v ∈ pre, ctxTagOf v ≠ some tag := fun v hv => hdis v hv tag (by simp [Fields.tags])
+            have hdis' : ∀ v ∈ pre, ∀ tg ∈ rest.tags, ctxTagOf v ≠ some tg :=
+              fun v hv tg htg => hdis v hv tg (by simp [Fields.tags, htg])
+            have hc : ∀ v ∈ rs, CtxVal v := by
+              intro v hv
+              obtain ⟨⟨tg, h1, h2⟩, h3⟩ := encodeFields_shape rest r rs hrw hr v hv
+              exact ⟨tg, h2, Fields.tags_lt rest hrw tg h1, h3⟩
+            obtain ⟨hxw, hxt⟩ := encodeVal_shape ty false (.ctx tag) a x htyw htw ha
+            have hx : CtxVal x := ⟨tag, hxt, htag, hxw⟩
+            have hall : ∀ v ∈ pre ++ (x :: rs), CtxVal v := by
+              intro v hv
+              rcases List.mem_append.mp hv with hv | hv
+              · exact hpre v hv
+              · rcases List.mem_cons.mp hv with rfl | hv
+                · exact hx
+                · exact hc v hv
+            rw [decodeFields_consSkip, findCtx_fields _ tag more hall (Values.depth_lt_of_len _ hd), suffixAt_skip pre _ tag more hpre_ne,
+              suffixAt_head _ _ _ _ hxt]
+            have hdx : (encode x).length + 1 < USIZE := by
+              have := ofList_len_mem (pre ++ x :: rs) x (by simp); omega
+            have hdec := decodeVal_encode ty false (.ctx tag) a x (encodes (Values.ofList rs) ++ endByte :: more)
+              htyw htw ha hdx
+            have hrec := decodeFields_encode rest r (pre ++ [x]) rs more hrw hnd' hr
+              (by
+                intro v hv
+                rcases List.mem_append.mp hv with hv | hv
+                · exact hpre v hv
+                · simp only [List.mem_singleton] at hv; subst hv; exact hx)
+              (by
+                intro v hv tg htg
+                rcases List.mem_append.mp hv with hv | hv
+                · exact hdis' v hv tg htg
+                · simp only [List.mem_singleton] at hv; subst hv
+                  rw [ctxTagOf_eq hxt]
+                  simp only [ne_eq, Option.some.injEq]
+                  intro heq; exact hnotin (heq ▸ htg))
+              (by simpa [List.append_assoc] using hd)
+            simp only [List.append_assoc, List.cons_append, List.nil_append] at hrec
+            simp only [Res.ok_bind, encode_ne_nil, Bool.false_eq_true, if_false, hdec, hrec, Res.pure_eq]
+end
 
-
-theorem encodeFields_single (f : Field) (slots : List Slot) :
-    encodeFields [f] slots = match slots with
-      | [] => none
-      | s :: ss => (encodeField f s).map fun v => (v ++ [], ss) := by
-  cases slots with
-  | nil => rfl
-  | cons s ss =>
-    simp only [encodeFields]
-    cases encodeField f s <;> rfl
-
-theorem encodeItems_fields : ∀ (fs : List Field) (slots : List Slot),
-    encodeItems (fs.map .field) slots = encodeFields fs slots
-  | [], slots => rfl
-  | f :: fs, [] => by simp [encodeItems, encodeFields]
-  | f :: fs, s :: ss => by
-    have ih := encodeItems_fields fs ss
-    simp only [List.map_cons, encodeItems]
-    rw [encodeFields_single]
-    cases hf : encodeField f s with
-    | none => simp [encodeFields, hf]
-    | some v =>
-      cases he : encodeFields fs ss with
-      | none => simp [encodeFields, hf, ih, he]
-      | some pr => obtain ⟨vs, r⟩ := pr; simp [encodeFields, hf, ih, he]
-
-theorem decodeItems_fields (seq : Bytes) : ∀ fs : List Field,
-    decodeItems seq (fs.map .field) = decodeFields seq fs
-  | [] => rfl
-  | f :: fs => by simp only [List.map_cons, decodeItems, decodeFields, decodeItems_fields seq fs]
-
-theorem enter_cont (k : Kind) (cs : Values) :
-    enter k (encode (.cont .anon k cs)) = .ok (encodes cs ++ [endByte]) := by
-  have h := encode_cont_append .anon k cs []
-  simp only [List.append_nil] at h
-  cases k <;>
-    simp only [enter, structOf, arrayOf, listOf, h, control_header, Res.ok_bind, if_true, nextEnter_open]
-
-/-- **Derived structures (flat schemas).**  For a structure whose fields are `u8/u16/u32/u64/bool`,
-optional and/or nullable, with pairwise different context tags `< 256`: what the derived
-`from_tlv` decodes from the bytes of the derived `to_tlv` is the value that was encoded. -/
-theorem struct_roundtrip_flat (k : Kind) (fs : List Field) (slots : List Slot) (v : Value)
-    (ht : ∀ f ∈ fs, f.tag < 256) (hnd : (fs.map (·.tag)).Nodup)
-    (hv : toValue ⟨k, fs.map .field⟩ slots = some v) :
-    decodeStruct ⟨k, fs.map .field⟩ (encode v) = .ok slots := by
-  simp only [toValue, encodeItems_fields] at hv
-  cases he : encodeFields fs slots with
-  | none => simp [he] at hv
-  | some pr =>
-    obtain ⟨vals, rest⟩ := pr
-    cases rest with
-    | cons _ _ => simp [he] at hv
-    | nil =>
-      simp [he] at hv; subst hv
-      simp only [decodeStruct, enter_cont, Res.ok_bind, decodeItems_fields]
-      have := decodeFields_roundtrip [] fs slots [] vals he ht hnd (by simp) (by simp)
-      simpa using this
+/-- **Derived structures.**  For every well-formed schema (nested structures / lists, arrays of
+integers or of structures, octet and UTF-8 strings, enums, `Option`, `Nullable`): what the derived
+`from_tlv` decodes from the bytes of the derived `to_tlv` (followed by anything) is the value that
+was encoded. -/
+theorem struct_roundtrip (ty : Ty) (val : Val) (v : Value) (X : Bytes) (hty : ty.wf)
+    (hv : toValue ty val = some v) (hl : (encode v).length + 1 < USIZE) :
+    decodeStruct ty (encode v ++ X) = .ok val := by
+  exact decodeVal_encode ty false .anon val v X hty trivial hv hl
 
 end Tlv
